@@ -104,6 +104,11 @@ def gen_plan(seed, cfg):
         ws = rng.sample(sorted(WINDOWS), rng.randint(1, 3)) + ["heap"]
         sp["force_windows"] = {w: rng.randint(1, 4) for w in ws}
         sp["p_hot"] = rng.choice([0.0, 0.01, 0.03])
+    # Bytecode-level pre-emption (frame.f_trace_opcodes) was tried and rejected: under CPython
+    # 3.12's adaptive specialisation the number of opcode events of a function depends on how warm
+    # its code object is, so a schedule recorded at opcode granularity does not replay in a fresh
+    # interpreter (measured: 7080 vs 7261 steps for the same plan, first vs later run).  The tracer
+    # still understands sched["opcodes"], but no plan sets it.
     hk = gen_heap_knobs(rng)
     return {"engine": "T", "run_seed": seed, "hashseed": seed % 8, "n": n, "problems": problems,
             "threads": threads, "data": data, "sched": sp, "heap": hk,
@@ -170,10 +175,14 @@ def _make_tracer(s: Sched):
     cold = _state["cold"]
     windows = _state["windows"]
 
+    opcodes = bool(s.params.get("opcodes"))
+
     def mk(is_hot, short, window):
         def local(frame, event, arg):
             if event == "line":
                 s.point(f"{short}:{frame.f_lineno}", is_hot)
+            elif event == "opcode":
+                s.point(f"{short}:{frame.f_lineno}+{frame.f_lasti}", is_hot)
             elif event == "return" and window is not None:
                 me = s.tid()
                 if me is not None:
@@ -194,11 +203,11 @@ def _make_tracer(s: Sched):
             f = code.co_filename
             if f.startswith(hot):
                 w = windows.get((f, code.co_name)) or windows.get((f, None))
-                loc = mk(True, os.path.basename(f), w), w
+                loc = mk(True, os.path.basename(f), w), w, f.startswith(hot[:2])
             elif f.startswith(cold):
-                loc = mk(False, os.path.basename(f), None), None
+                loc = mk(False, os.path.basename(f), None), None, False
             else:
-                loc = (None, None)
+                loc = (None, None, False)
             cache[code] = loc
         if loc[1] is not None:
             me = s.tid()
@@ -206,6 +215,8 @@ def _make_tracer(s: Sched):
                 s.win_stack[me].append(loc[1])
                 s.in_window[me] = loc[1]
                 s.window_hits[loc[1]] = s.window_hits.get(loc[1], 0) + 1
+        if opcodes and loc[2]:
+            frame.f_trace_opcodes = True
         return loc[0]
 
     return glob
